@@ -124,3 +124,45 @@ def replay_table_merge(inputs, obl):
     if problems:
         return dict(confirmed=True, detail='; '.join(problems[:2]))
     return dict(confirmed=False, detail='merge of stored and new tables follows the documented rule on all shapes tried')
+
+
+def replay_table_ownership(inputs, obl):
+    """set, get, change the fetched table locally (add a column; index it; upsert a row), get again: the store must still answer with
+    the value of the latest set - through the real TableStorage, with one store object and with a freshly opened one"""
+    import tempfile, shutil
+    import pandas as pd
+    from klongpy.db.sys_fn_kvs import TableStorage
+    from klongpy.db.sys_fn_db import Table
+
+    def view(t):
+        df = t.get_dataframe()
+        return (list(df.columns), list(df.index), [tuple(r) for r in df.itertuples(index=False, name=None)])
+    d = tempfile.mkdtemp(prefix='pyvc_own_')
+    problems = []
+    try:
+        ts = TableStorage(d)
+        df0 = pd.DataFrame({"s": ["a", "b", "c"], "v": [1.0, 2.0, 3.0]})
+        ts.set("k", Table(df0))
+        want = view(ts.get("k"))
+        edits = [("adds a column", lambda t: t.set("flag", [9, 9, 9])),
+                 ("indexes it", lambda t: t.set_index(["s"])),
+                 ("indexes it and re-inserts a key", lambda t: (t.set_index(["s"]), t.insert(["a", 77.0]), t.get_dataframe())),
+                 ("overwrites a column of its frame", lambda t: t.get_dataframe().__setitem__("v", [0.0, 0.0, 0.0])),
+                 ("writes one cell of its frame in place", lambda t: t.get_dataframe().iloc.__setitem__((0, 1), 0.5))]
+        for what, edit in edits:
+            u = ts.get("k")
+            try:
+                edit(u)
+            except Exception as e:          # the edit itself failing is not this property's business
+                continue
+            got = view(ts.get("k"))
+            if got != want:
+                problems.append(f"ts,\"k\",t; u::ts?\"k\"; a reader {what} on u (no set in between); ts?\"k\" now gives {got}, the latest set was {want}")
+                break
+        if not problems and view(TableStorage(d).get("k")) != want:
+            problems.append("a freshly opened store disagrees with the latest set")
+    finally:
+        shutil.rmtree(d, ignore_errors=True)
+    if problems:
+        return dict(confirmed=True, detail=problems[0])
+    return dict(confirmed=False, detail='a reader changing the table it fetched never reached the store')
